@@ -219,7 +219,9 @@ struct Run {
 
 fn generate(entry: &str, ir: &Path, cfg: &Cfg, seed: u64, work: &Path, tag: &str, strace: bool) -> (Run, Option<Vec<String>>) {
     // a fresh output directory whose *path* varies with the run, and a different cwd
-    let out = work.join(format!("out-{}-{}-s{}", tag, entry, seed)).join("x".repeat((seed % 5) as usize + 1));
+    // (the last component takes names a build tool gives meaning to: the tree must not depend on
+    // what the requested directory is called)
+    let out = work.join(format!("out-{}-{}-s{}", tag, entry, seed)).join(["x", "src", "xxx", "lib", "target", "mod.rs", "com"][(seed % 7) as usize]);
     let cwd = work.join(format!("cwd-{}-{}-s{}", tag, entry, seed));
     std::fs::create_dir_all(&cwd).unwrap();
     std::fs::create_dir_all(out.parent().unwrap()).unwrap();
